@@ -198,3 +198,15 @@ package state
 //@     && (self.data.Balance != nil ==> result.data.Balance == self.data.Balance)
 //@     && (self.data.CodeHash != nil ==> result.data.CodeHash == self.data.CodeHash)
 //@     && result.data.Root == self.data.Root
+
+// ---- read accessors as observers (C15) ----------------------------------------------------------
+// Trusted: reading a nonce or balance does not change anything a contract mentions (it may load
+// the object into the cache); the values are observers of the state and the address.
+//@ func StateDB.GetNonce
+//@   trusted
+//@   ensures result == st_nonce(self, addr)
+//@   assigns nothing
+//@ func StateDB.GetBalance
+//@   trusted
+//@   ensures result != nil && big(result) == st_balance(self, addr)
+//@   assigns nothing
